@@ -74,6 +74,7 @@ var c19Shapes = []c19Shape{
 	{"plain-send-recv", "plain", "", nil, "", false, false, 0},
 	{"plain-encrypted", "plain-enc", "", nil, "", false, false, 0},
 	{"typed-exchange", "typed", "", nil, "", false, false, 0},
+	{"plain-after-SetConnection", "plain-swapped-conn", "", nil, "", false, false, 0},
 	{"hs-noauth-enc/client", "client", security.SecurityNever, []security.AuthMethod{mCTB}, security.SecurityRequired, false, false, 0},
 	{"hs-noauth-enc/server", "server", security.SecurityNever, []security.AuthMethod{mCTB}, security.SecurityRequired, false, false, 0},
 	{"hs-claimtobe/client", "client", security.SecurityRequired, []security.AuthMethod{mCTB}, security.SecurityRequired, false, false, 0},
@@ -113,6 +114,15 @@ func c19Plain(sh c19Shape, stall int, ctx context.Context, onStall func()) *c19O
 	}
 	bg := context.Background()
 	sa, sb := stream.NewStream(a), stream.NewStream(b)
+	if sh.role == "plain-swapped-conn" {
+		// legal API use: the stream is created around one connection and then given
+		// another one (SetConnection) before any traffic; cancellation must act on the
+		// connection the stream is using now
+		d1, d2 := netsim.Pipe(netsim.NewWorld(2), "10.7.7.7:1", "10.7.7.8:2")
+		_ = d2
+		sa = stream.NewStream(d1)
+		sa.SetConnection(a)
+	}
 	if sh.role == "plain-enc" {
 		_ = sa.SetSymmetricKey(testKey)
 		_ = sb.SetSymmetricKey(testKey)
@@ -285,7 +295,7 @@ func c19Exec(sh c19Shape, stall int, ctx context.Context, onStall func()) *c19Ou
 func C19Plan() *vlib.Plan {
 	p := &vlib.Plan{
 		Property: "C19", Level: "fault_enumeration",
-		Rule:   "E-FAULT over I/O steps: for each shape (plain send/receive, the same on an encrypted stream, typed exchange; client and server side of handshakes {no authentication + encryption, CLAIMTOBE, TOKEN, TOKEN without encryption, resumed session, SSL (TLS tunnelled through CEDAR messages, throw-away CA)}) a dry run counts the endpoint's connection operations N; for every k < N the k-th read/write blocks forever and, once the stall is entered, (a) the context is cancelled, (b) a harness-controlled deadline context expires (thorough: also a real 50 ms timeout); plus already-cancelled before the call, cancelled after completion, a never-cancellable context, and a trickling link (the endpoint's reads return at most 1 / 3 / 7 bytes) under Background, TODO and cancellable-but-never-cancelled contexts. Oracle: the call returns (10 s watchdog, the only wall-clock judgement), with an error (errors.Is(err, ctx.Err()) for plain stream operations), the connection was closed; never-cancelled runs equal the baseline. Non-trivial = the stall point was reached.",
+		Rule:   "E-FAULT over I/O steps: for each shape (plain send/receive, the same on an encrypted stream, typed exchange, plain exchange on a stream whose connection was replaced through SetConnection; client and server side of handshakes {no authentication + encryption, CLAIMTOBE, TOKEN, TOKEN without encryption, resumed session, SSL (TLS tunnelled through CEDAR messages, throw-away CA)}) a dry run counts the endpoint's connection operations N; for every k < N the k-th read/write blocks forever and, once the stall is entered, (a) the context is cancelled, (b) a harness-controlled deadline context expires (thorough: also a real 50 ms timeout); plus already-cancelled before the call, cancelled after completion, a never-cancellable context, and a trickling link (the endpoint's reads return at most 1 / 3 / 7 bytes) under Background, TODO and cancellable-but-never-cancelled contexts. Oracle: the call returns (10 s watchdog, the only wall-clock judgement), with an error (errors.Is(err, ctx.Err()) for plain stream operations), the connection was closed; never-cancelled runs equal the baseline. Non-trivial = the stall point was reached.",
 		Assume: []string{"free-running (context.AfterFunc callbacks run on standard-library goroutines); FS/KERBEROS/SCITOKENS shapes excluded (need a mount namespace / a KDC / an issuer)"},
 	}
 	p.Gen = func(tier string, yield func(vlib.Case)) {
